@@ -244,7 +244,9 @@ func ForProgram(t *rapid.T, cfg AsmConfig) (rc.Program, ForInfo) {
 			} else {
 				g.info.ChainedEqu = true
 				prev := rc.ID(fmt.Sprintf("C%d", rapid.IntRange(0, k-1).Draw(t, "chain")))
-				switch rapid.IntRange(0, 2).Draw(t, "chk") {
+				switch rapid.IntRange(0, 3).Draw(t, "chk") {
+				case 3:
+					body = rc.Toks(prev) // a plain alias
 				case 0:
 					body = rc.Toks(prev, rc.OP("+"), rc.N(1))
 				case 1:
